@@ -349,6 +349,9 @@ Fixpoint b2k_loop (fuel : nat) (b2k p m : Z) : Z :=          (* for(m = 0; b2k !
   | O => m
   | S f => if b2k =? 1 then m else b2k_loop f (Z.rem (b2k * b2k) p) p (m + 1)
   end.
+(* Integer::operator<<=(int64_t) (mpz_mul_2exp): exact for EVERY shift count, no machine word involved.
+   `puis = 1; puis <<= lpuis;` below shifts the multi-precision 1; lpuis >= 64 happens as soon as 2^66 | p - 1 *)
+Definition shl (x k : Z) : Z := x * 2 ^ k.
 Fixpoint ts_loop (fuel : nat) (p x b y r : Z) : Z :=
   match fuel with
   | O => -1                                  (* fuel exhausted: reported like a failure (never happens for a prime p: r decreases) *)
@@ -356,7 +359,9 @@ Fixpoint ts_loop (fuel : nat) (p x b y r : Z) : Z :=
     if b =? 1 then x else
     let m := b2k_loop (Z.to_nat r) b p 0 in
     if m =? r then -1 else
-    let t := powmod y (2 ^ (r - m - 1)) p in
+    let lpuis := r - m - 1 in
+    let puis := shl 1 lpuis in
+    let t := powmod y puis p in
     let y' := Z.rem (t * t) p in
     ts_loop f p (Z.rem (x * t) p) (Z.rem (b * y') p) y' m
   end.
